@@ -585,10 +585,16 @@ def rule_P2(ck, rule="P2"):
         return
     csm = tu.S("w_ctor")
     cbegin = tu.obs("w_ctor", "post", "begin")
-    cal = [e for e in csm.events if e.kind == "ALLOC" and e.res == cbegin]
-    if len(cal) != 1:
+    from .rules_own import alloc_leaves
+    lv = alloc_leaves(cbegin) or ()
+    cal = [e for e in csm.events if e.kind == "ALLOC" and e.res.single_atom() in lv]
+    if len(cal) == 1:
+        formula = cal[0].args[1]
+    elif len(cal) == 2:
+        # two allocation sites on exclusive paths (e.g. "one more unit when there is a remainder")
+        formula = mk_gamma(cal[0].guard, cal[0].args[1], cal[1].args[1])
+    else:
         raise AnalysisBroken("%s: constructor's data-block allocation not found" % tu.cfg)
-    formula = cal[0].args[1]
     cps = tu.meta["w_ctor"]["params"]
 
     def fresh_formula(n, nbytes, fs):
